@@ -113,6 +113,29 @@ def corpus(rng, quick):
         for nn, nested in (("par", npar), ("map", nmap)):
             out.append(S("handled-fail-vs-nested-%s-%s" % (nn, hn), outer(handler, nested), {"items": [1, 2]},
                          {"fa": [("err", "EA", "m")] + ([("ok",)] if hn == "retry-ok" else []), "fx": [("ok",)]}, {"fa": 5, "fx": 40}))
+    # a branch fails while a sibling is pending in a Task / Wait that has a Retry or Catch of its own (States.ALL,
+    # States.TaskFailed), or sits in a nested fan-out that has one: the cancellation (Task.Terminated) of the sibling must go
+    # through none of them — flat unhandled / caught / retried enclosing state
+    sib_catch = [{"ErrorEquals": ["States.ALL"], "Next": "SR"}]
+    siblings = (
+        ("task-catch-all", {"StartAt": "B", "States": {"B": T("fb", Catch=sib_catch), "SR": {"Type": "Pass", "End": True}}}),
+        ("task-catch-taskfailed", {"StartAt": "B", "States": {"B": T("fb", Catch=[{"ErrorEquals": ["States.TaskFailed"], "Next": "SR"}]),
+                                                               "SR": {"Type": "Pass", "End": True}}}),
+        ("task-retry-all", {"StartAt": "B", "States": {"B": T("fb", Retry=[{"ErrorEquals": ["States.ALL"], "IntervalSeconds": 1, "MaxAttempts": 2}])}}),
+        ("nested-catch-wait", {"StartAt": "N", "States": {"N": {"Type": "Parallel", "Next": "SR", "Catch": sib_catch, "Branches": [
+            {"StartAt": "W", "States": {"W": {"Type": "Wait", "Seconds": 2, "Next": "WP"}, "WP": {"Type": "Pass", "End": True}}}]},
+            "SR": {"Type": "Pass", "End": True}}}),
+        ("nested-catch-task", {"StartAt": "N", "States": {"N": {"Type": "Parallel", "Next": "SR", "Catch": sib_catch, "Branches": [
+            {"StartAt": "B", "States": {"B": T("fb")}}]}, "SR": {"Type": "Pass", "End": True}}}),
+    )
+    for hn, handler in (("none", {}), ("catch", {"Catch": [{"ErrorEquals": ["EA"], "Next": "R"}]}),
+                        ("retry", {"Retry": [{"ErrorEquals": ["EA"], "IntervalSeconds": 1, "MaxAttempts": 1}]})):
+        for sn, sib in siblings:
+            m = {"StartAt": "P", "States": {"P": dict({"Type": "Parallel", "Next": "Z", "Branches": [
+                {"StartAt": "A", "States": {"A": T("fa")}}, json.loads(json.dumps(sib))]}, **handler),
+                "Z": {"Type": "Pass", "End": True}, "R": {"Type": "Pass", "Result": "recovered", "End": True}}}
+            out.append(S("par-fail-vs-handled-sibling-%s-%s" % (sn, hn), m, {"x": 1},
+                         {"fa": [("err", "EA", "m"), ("ok",)], "fb": [("ok",)]}, {"fa": 5, "fb": 400}))
     # a branch / iteration whose (successful) last state outputs an object with an "Error" member: an Error Output handed on by
     # a Catch, or just data that looks like one; its StateExited is logged like any other
     out.append(S("branch-catch-then-succeed", {"StartAt": "P", "States": {"P": {"Type": "Parallel", "End": True, "Branches": [
@@ -151,6 +174,22 @@ def corpus(rng, quick):
         "Z": {"Type": "Pass", "End": True}}}, dict(big, none=[])))
     out.append(S("nonext-pass", {"StartAt": "A", "States": {"A": {"Type": "Pass"}}}, {"x": 1}))
     out.append(S("nonext-wait", {"StartAt": "W", "States": {"W": {"Type": "Wait", "Seconds": 1}}}, {"x": 1}))
+    # the "long form" of a function call (Resource …:rpcmessage:invoke[.waitForTaskToken] with Parameters.FunctionName /
+    # Payload): its request goes under a correlation id with a suffix, so cancelling it when a sibling fails takes the
+    # canceller's own key; alone, pending while a sibling fails (unhandled / caught / retried), and in a Map iteration
+    INVOKE = "arn:aws:states:local::rpcmessage:invoke"
+    inv = lambda fn, **kw: dict({"Type": "Task", "Resource": INVOKE, "Parameters": {"FunctionName": FN + fn, "Payload": {"x.$": "$.x"}}, "End": True}, **kw)
+    out.append(S("seq-invoke-longform", {"StartAt": "T", "States": {"T": inv("f1")}}, {"x": 1}, {"f1": [("ok",)]}, {"f1": 20}))
+    for tag, extra in (("", {}), ("-catch", {"Catch": [{"ErrorEquals": ["States.ALL"], "Next": "R"}]}),
+                       ("-retry", {"Retry": [{"ErrorEquals": ["States.ALL"], "IntervalSeconds": 1, "MaxAttempts": 1}]})):
+        out.append(S("par-invoke-longform-vs-fail" + tag, {"StartAt": "P", "States": {"P": dict({"Type": "Parallel", "End": True, "Branches": [
+            {"StartAt": "A", "States": {"A": inv("f1")}},
+            {"StartAt": "B", "States": {"B": T("f2")}}]}, **extra), "R": {"Type": "Pass", "End": True}}},
+                     {"x": 1}, {"f1": [("ok",)], "f2": [("err", "Boom", "m")]}, {"f1": 80, "f2": 10}))
+    out.append(S("map-invoke-longform-vs-fail", {"StartAt": "M", "States": {"M": {"Type": "Map", "ItemsPath": "$.items", "End": True,
+        "Iterator": {"StartAt": "C", "States": {"C": {"Type": "Choice", "Choices": [{"Variable": "$.x", "NumericEquals": 2, "Next": "F"}], "Default": "A"},
+                                                 "A": inv("f1"), "F": {"Type": "Fail", "Error": "Bad", "Cause": "item"}}}}}},
+                 {"items": [{"x": 1}, {"x": 2}, {"x": 3}]}, {"f1": [("ok",)]}, {"f1": 60}))
     # definitions the engine cannot interpret at one site (C18's subject; here only the lifecycle / ledger / history laws are
     # evaluated, the reference semantics is not asked): the empty string as a branch's StartAt or as a transition target —
     # an event whose state name is empty is what the engine takes for the start of a new execution
@@ -239,6 +278,31 @@ def fan_witnesses():
         "Branches": [{"StartAt": "A", "States": {"A": T("fa")}}, {"StartAt": "B", "States": {"B": T("fb")}}]}}},
         {"x": 1}, {"fa": [("err", "EA", "m"), ("ok",)], "fb": [("ok",), ("ok",)]}, {"fa": 5, "fb": 10},
         extra={"finding": "C06-F5", "stall_at": [10, 13], "errors": ["EA"]}))
+    # C06-F6: a Task / Wait pending in a fan-out nested (depth 2 and 3) in a sibling branch when the enclosing state fails and
+    # the failure is retried / caught (/ not handled: the execution ends, which has always cancelled everything)
+    def leaf(kind):
+        if kind == "task":
+            return {"StartAt": "X", "States": {"X": T("fx")}}
+        return {"StartAt": "X", "States": {"X": {"Type": "Wait", "Seconds": 2, "Next": "Y"}, "Y": {"Type": "Pass", "End": True}}}
+
+    def nest(depth, kind):
+        b = leaf(kind)
+        names = ["N", "Q"]
+        for d in range(depth - 1):
+            nm = names[depth - 2 - d]
+            b = {"StartAt": nm, "States": {nm: {"Type": "Parallel", "End": True, "Branches": [b]}}}
+        return b
+    handlers = (("retry", {"Retry": [{"ErrorEquals": ["EA"], "IntervalSeconds": 1, "MaxAttempts": 1}]}),
+                ("catch", {"Catch": [{"ErrorEquals": ["EA"], "Next": "R"}]}), ("none", {}))
+    for hn, handler in handlers:
+        for depth in (2, 3):
+            for kind in ("task", "wait"):
+                m = {"StartAt": "P", "States": {"P": dict({"Type": "Parallel", "Next": "Z", "Branches": [
+                    {"StartAt": "A", "States": {"A": T("fa")}}, nest(depth, kind)]}, **handler),
+                    "Z": {"Type": "Pass", "End": True}, "R": {"Type": "Pass", "Result": "recovered", "End": True}}}
+                out.append(S("nested-pending-%s-d%d-%s" % (hn, depth, kind), m, {"x": 1},
+                             {"fa": [("err", "EA", "m"), ("ok",)], "fx": [("ok",)]}, {"fa": 5, "fx": 400},
+                             extra={"finding": "C06-F6", "errors": ["EA"]}))
     return out
 
 
@@ -596,6 +660,10 @@ def run_property(chk, prop, laws, quick_gen=300, thorough_gen=4000, scns=None, n
             want_frames = "C03" in laws and speaks and kind == "canonical"
             ab = None
             if tracer is not None:
+                # the direct law: no task / wait of a dead attempt survives the step in which its enclosing attempt failed
+                surv = fanproto.dead_survivors(tracer)
+                if surv:
+                    probs.append(("C06.no_pending_task_of_dead_attempt", {"survivors": surv[:4], "steps_with_survivors": len(surv)}))
                 try:
                     ab = fanproto.Abstraction(tracer, scn.machine).run()
                 except fanproto.Unsupported as e:
@@ -645,7 +713,8 @@ def run_property(chk, prop, laws, quick_gen=300, thorough_gen=4000, scns=None, n
         probs = pr["probs"]
         if expect is not None:
             probs = probs + expect.post(pr["scn"], pr["fv"], pr["pre"], mo)
-        if skip_multi and not pr["hand"] and mo is not None and mo.get("tieFail" if pr["kind"] == "canonical" else "multiFail"):
+        if (skip_multi or pr["scn"].extra.get("tie_only")) and not pr["hand"] and mo is not None and \
+                mo.get("tieFail" if pr["kind"] == "canonical" else "multiFail"):
             chk.dist("skipped.multiple_failures(C06)")
             continue
         if pr["hist"] is not None and mo is not None:
